@@ -256,4 +256,28 @@ theorem nonce_floor_rises (c c' : Chain) (k : Checked) (hm : k.tx.memo = rlpV2Me
     (h : applyChecked c k = .ok c') : (c'.account k.sender).nonce = k.tx.nonce + 1 :=
   Replay.nonce_bumped c c' k hm h
 
+/-- every writer of an account nonce in fsm/*.go, and every `Account{…}` record built from scratch
+(regenerated from the source): the nonce is assigned in `ApplyTransaction` only (`UnmarshalJSON` copies
+it, `rlpToCanopyTransaction` fills the TRANSACTION's nonce), and no code path rebuilds an account record
+field by field — a literal that left `Nonce` out would reset the RLP.V2 floor -/
+theorem account_nonce_writes_src :
+    Gen.Proto.accountNonceWrites =
+      ["account.go:UnmarshalJSON: x.Nonce = a.Nonce",
+       "ethereum.go:rlpToCanopyTransaction: transaction.Nonce = tx.Nonce()",
+       "transaction.go:ApplyTransaction: account.Nonce = result.tx.Nonce + 1"] ∧
+    Gen.Proto.accountLiterals = [] := by decide
+
+/-- **the nonce floor has one writer**: executing a transaction leaves every account's nonce as it
+was, except that an RLP.V2 transaction sets its sender's to its own nonce + 1; in particular receiving
+a send — plain or with a vesting schedule — never changes the recipient's nonce -/
+theorem nonce_written_only_by_rlpv2 (c c' : Chain) (k : Checked) (h : applyChecked c k = .ok c') (a : Bytes) :
+    (c'.account a).nonce =
+      if k.tx.memo = rlpV2Memo ∧ k.sender = a then k.tx.nonce + 1 else (c.account a).nonce :=
+  Replay.nonce_after c c' k h a
+
+/-- … and therefore never goes down (an accepted RLP.V2 transaction has `floor ≤ nonce`, `nonce_floor`) -/
+theorem nonce_floor_monotone (c c' : Chain) (k : Checked) (h : applyChecked c k = .ok c')
+    (hf : k.tx.memo = rlpV2Memo → (c.account k.sender).nonce ≤ k.tx.nonce) (a : Bytes) :
+    (c.account a).nonce ≤ (c'.account a).nonce := Replay.nonce_monotone c c' k h hf a
+
 end Canopy.C06
